@@ -23,7 +23,7 @@ pub mod biscuit_auth {
     pub mod error {
         use vstd::prelude::*;
         pub enum Format { InvalidBlockId(usize), Other }
-        pub enum Token { Format(Format), Other }
+        pub enum Token { Format(Format), AlreadySealed, Other }
     }
     pub mod builder {
         use vstd::prelude::*;
@@ -120,7 +120,13 @@ pub mod biscuit_auth {
         #[verifier::external_body]
         pub fn from_bytes(bytes: &[u8], algorithm: builder::Algorithm) -> Result<PublicKey, error::Token> { unimplemented!() }
     }
+    // read access to the signed container (public API): whether the proof is a seal
+    pub struct TokenNext { pub sealed: bool }
+    impl TokenNext { pub fn is_sealed(&self) -> (r: bool) ensures r == self.sealed { self.sealed } }
+    pub struct SerializedBiscuit { pub proof: TokenNext }
     impl Biscuit {
+        #[verifier::external_body]
+        pub fn container(&self) -> &SerializedBiscuit { unimplemented!() }
         #[verifier::external_body]
         pub fn builder() -> builder::BiscuitBuilder { unimplemented!() }
         #[verifier::external_body]
